@@ -1,0 +1,36 @@
+//go:build verif
+
+// Copyright 2025 Tetrate
+//
+// Licensed under the Apache License, Version 2.0 (the "License");
+// you may not use this file except in compliance with the License.
+// You may obtain a copy of the License at
+//
+//     http://www.apache.org/licenses/LICENSE-2.0
+//
+// Unless required by applicable law or agreed to in writing, software
+// distributed under the License is distributed on an "AS IS" BASIS,
+// WITHOUT WARRANTIES OR CONDITIONS OF ANY KIND, either express or implied.
+// See the License for the specific language governing permissions and
+// limitations under the License.
+
+package k8s
+
+import (
+	"sigs.k8s.io/controller-runtime/pkg/client"
+
+	configv1 "github.com/istio-ecosystem/authservice/config/gen/go/v1"
+)
+
+// NewSecretControllerForVerification builds a SecretController that runs in the given namespace against the
+// given Kubernetes client, and performs the start-up loading of the secret references (as PreRun does before it
+// creates the controller manager). Only compiled with the `verif` build tag.
+func NewSecretControllerForVerification(cfg *configv1.Config, namespace string, c client.Client) (*SecretController, error) {
+	s := NewSecretController(cfg)
+	s.namespace = namespace
+	s.k8sClient = c
+	if err := s.loadSecrets(); err != nil {
+		return nil, err
+	}
+	return s, nil
+}
